@@ -31,9 +31,39 @@ const SIG_PANIC: &str = "panics";
 const SIG_KNOWN_UNION: &str = "excludes self and other although the prose documentation says they are included";
 const SIG_NEITHER_UNION: &str = "is neither anc(a)\u{222a}anc(b) nor anc(a)\u{222a}anc(b)\u{222a}{a,b}";
 
+const SIG_MIXED_CASE: &str = "readings mixed: some pairs of one ontology are answered with self and other included, others without (no single reading of the documentation covers both)";
+const SIG_MIXED_RUN: &str = "readings mixed: this ontology is answered in the other reading (self and other included / not included) than the first ontology this process asked";
+const SIG_TWIN: &str = "yields different ids than its _ids twin";
+
 thread_local! {
     /// Breadcrumb: the public API function being executed (blamed when the library panics).
     static AT: Cell<&'static str> = const { Cell::new("HpoGroup") };
+    /// all_union_ancestor_ids / all_union_ancestors: the reading (1 = with self and other, 2 = without) in which the
+    /// first identifiable pair of the current ontology resp. of this process was answered. Either reading is
+    /// accepted, but it is ONE reading: the choice of one pair binds every other pair and both functions.
+    static READING_CASE: Cell<u8> = const { Cell::new(0) };
+    static READING_RUN: Cell<u8> = const { Cell::new(0) };
+}
+fn reading_new_ontology() {
+    READING_CASE.with(|c| c.set(0));
+}
+/// Book the reading of one answer; the signature to report when it is not the reading chosen before.
+fn note_reading(rd: u8) -> Option<&'static str> {
+    let c = READING_CASE.with(|c| c.get());
+    let r = READING_RUN.with(|c| c.get());
+    if c == 0 {
+        READING_CASE.with(|x| x.set(rd));
+    }
+    if r == 0 {
+        READING_RUN.with(|x| x.set(rd));
+    }
+    if c != 0 && c != rd {
+        Some(SIG_MIXED_CASE)
+    } else if r != 0 && r != rd {
+        Some(SIG_MIXED_RUN)
+    } else {
+        None
+    }
 }
 fn at(s: &'static str) {
     AT.with(|c| c.set(s));
@@ -2375,9 +2405,18 @@ fn check_pair_across(ont: &Ontology, r: &RefOnt, ont_b: &Ontology, r_b: &RefOnt,
     fp.set(&obs.iter);
     let (excl, incl) = (v(&union), v(&union_incl));
     let site = "HpoTerm::all_union_ancestor_ids";
+    // the reading is bound for terms of ONE ontology only (two instances are outside the quantifier); incl != excl
+    // whenever the ontology is acyclic (neither term is its own ancestor), so the reading of an answer is identifiable
+    let bind_reading = std::ptr::eq(ont, ont_b) && incl != excl;
+    let ids_form_answer = obs.iter.clone();
     if obs.iter == incl || obs.iter == excl {
         if obs.iter != incl {
             out.push((site.into(), SIG_KNOWN_UNION.into(), format!("{site}({a}, {b})"), format!("returned {:?} = anc(a)\u{222a}anc(b); with self and other it would be {:?}", obs.iter, incl)));
+        }
+        if bind_reading {
+            if let Some(sig) = note_reading(if obs.iter == incl { 1 } else { 2 }) {
+                out.push((site.into(), sig.into(), format!("{site}({a}, {b})"), format!("returned {:?}; exclusive reading {:?}, inclusive reading {:?}", obs.iter, excl, incl)));
+            }
         }
         let reading = obs.iter.clone();
         if let Some((s, sig, what)) = diff(&obs, &Snap::expected(&reading, probes), site, probes) {
@@ -2427,14 +2466,24 @@ fn check_pair_across(ont: &Ontology, r: &RefOnt, ont_b: &Ontology, r_b: &RefOnt,
                     let mut twin_ids = twins[*t].clone();
                     twin_ids.sort_unstable();
                     if ids != twin_ids {
-                        out.push((site, "yields different ids than its _ids twin".into(), q.clone(), format!("yields {ids:?}, twin returns {twin_ids:?} (both sorted)")));
+                        out.push((site, SIG_TWIN.into(), q.clone(), format!("yields {ids:?}, twin returns {twin_ids:?} (both sorted)")));
                     }
                 }
             }
             None => {
-                if ids == incl {
-                } else if ids == excl {
-                    out.push((site, SIG_KNOWN_UNION.into(), q.clone(), format!("yields {ids:?} = anc(a)\u{222a}anc(b); with self and other it would be {incl:?}")));
+                if ids == incl || ids == excl {
+                    if ids != incl {
+                        out.push((site.clone(), SIG_KNOWN_UNION.into(), q.clone(), format!("yields {ids:?} = anc(a)\u{222a}anc(b); with self and other it would be {incl:?}")));
+                    }
+                    // like the other three twins: when both forms answer in one of the two readings, it is the same one
+                    if (ids_form_answer == incl || ids_form_answer == excl) && ids != ids_form_answer {
+                        out.push((site.clone(), SIG_TWIN.into(), q.clone(), format!("yields {ids:?}, twin returns {ids_form_answer:?} (both sorted)")));
+                    }
+                    if bind_reading {
+                        if let Some(sig) = note_reading(if ids == incl { 1 } else { 2 }) {
+                            out.push((site, sig.into(), q.clone(), format!("yields {ids:?}; exclusive reading {excl:?}, inclusive reading {incl:?}")));
+                        }
+                    }
                 } else {
                     out.push((site, SIG_NEITHER_UNION.into(), q.clone(), format!("yields {ids:?}; exclusive reading {excl:?}, inclusive reading {incl:?}")));
                 }
@@ -2518,6 +2567,7 @@ fn ancestor_case(ctx: &mut Ctx, seen: &mut BTreeSet<String>, f: &Facts, r: &RefO
     };
     let mut found: Vec<AFind> = vec![];
     let mut fp = Fp::new();
+    reading_new_ontology();
     let res = guard(|| {
         for &a in firsts {
             for &b in seconds {
@@ -2661,7 +2711,7 @@ fn ancestors_flagged(ctx: &mut Ctx, seen: &mut BTreeSet<String>) {
                     }
                 }
                 // the reference closure does not look at flags
-                debug_assert!(RefOnt::derive(&f).terms.iter().all(|(id, t)| t.ancestors == r.terms[id].ancestors));
+                assert!(RefOnt::derive(&f).terms.iter().all(|(id, t)| t.ancestors == r.terms[id].ancestors), "harness: the reference closure must not look at flags");
                 ctx.state();
                 ancestor_case(ctx, seen, &f, &r, Via::Binary, &firsts, None, &format!("{}; obsolete+replaced: {:?}", d.describe(), flagged));
             }
@@ -2742,7 +2792,6 @@ fn ancestors_across(ctx: &mut Ctx, seen: &mut BTreeSet<String>) {
                 let npairs = (n * n) as u64;
                 ctx.transitions(fa.n_steps() + fb.n_steps() + npairs * 8);
                 ctx.execs(npairs * 8);
-                ctx.validateds(npairs * 8);
                 let shape = format!("A: {}; B: {}", da.describe(), db.describe());
                 let (oa, ob) = match (construct_ontology(&fa, Via::Builder), construct_ontology(&fb, Via::Builder)) {
                     (Ok(a), Ok(b)) => (a, b),
@@ -2764,7 +2813,10 @@ fn ancestors_across(ctx: &mut Ctx, seen: &mut BTreeSet<String>) {
                         }
                     }
                 }
-                ctx.bump("two_instance_pairs_refused", refused);
+                // (validated = queries of pairs that were answered and judged; a refused pair judges nothing)
+                ctx.validateds((npairs - refused) * 8);
+                ctx.bump("refused: ancestor queries on terms of two Ontology instances panic (pairs of terms, 8 queries each)", refused);
+                ctx.bump("two-instances: pairs of terms asked", npairs);
                 ctx.outcome(fp.0);
                 let prelude = || format!("{}{}", ob.1.replace("let ont = ", "let ont_b = "), oa.1);
                 for (site, sig, query, what) in found {
